@@ -7,3 +7,11 @@ CLAIMED["C05"] = {
     "text": "Every obligation generated from the current source of the CompactSize codec and the transaction element (de)serialisers is discharged for all integers / byte strings (no bound).",
     "note": _NOTE,
 }
+
+_TECH = "contract-based deductive verification: sidecar pre/postconditions, loop invariants and lemmas on the real functions; VCs generated from /repo source by symbolic execution (pyvc) and discharged by z3/cvc5 for all inputs and iterations; counterexamples replayed natively"
+CLAIMED["C07"] = {"technique": _TECH,
+    "text": "base58encode/base58decode are proved against a positional-value spec with loop invariants (all lengths, leading zeros, canonical digits, alphabet), base58check/base58check_decode/is_base58check against those contracts (modular), and decode(encode(d)) == d for every byte string. Not proved: encode(decode(s)) == s and the composed Base58Check round trip (listed under not_decided_clauses in DESIGN.md).",
+    "note": _NOTE + " Inductive lemma b58val >= 0 is proved in the same run. lstrip/bytes-repeat facts are trusted builtin axioms."}
+CLAIMED["C11"] = {"technique": _TECH,
+    "text": "witness_message equals a spec transcribed from the BIP143 text, byte for byte, for every input list, index, amount, scriptCode, outputs, version, locktime and each of the six sighash types (comprehensions over lists of unbounded length are map terms).",
+    "note": _NOTE + " That the first 36 / last 4 bytes of a serialised input are its outpoint / sequence is contract C05.txin. 'Valid under consensus' is the meaning of the BIP, not an obligation."}
